@@ -195,6 +195,37 @@ def r4b(prog, rep, config):
                                                                     if 'errors' in missing else 'part of the table is not exported'))
         else:
             rep.ok('R4b', k, where='%s:%d' % (f.file, f.line), fn=f.name, detail='%s reads header, rows, footer, notes and errors' % kind)
+        # every field is exported on EVERY non-error path: no early Ok-return that skips a field
+        first_read = {}
+        for i in sorted(f.blocks):
+            b = f.blocks[i]
+            pls = []
+            for s2 in b['stmts']:
+                pls += f.stmt_sources(s2)
+            t2 = b['term']
+            if t2 and t2['t'] == 'call':
+                pls += [a['pl'] for a in t2['args'] if is_place(a)]
+            for pl in pls:
+                for (of, fl) in mir.place_fields(pl):
+                    if of.endswith('render::RenderTable'):
+                        first_read.setdefault(fl, set()).add(i)
+        err_blocks = {c.bb for c in f.calls if c.short == 'from_residual'}
+        err_blocks |= {i for i, b in f.blocks.items() for s2 in b['stmts']
+                       if s2['dst']['l'] == 0 and s2['r']['rv'] == 'agg' and s2['r']['kind'].endswith('Result::Err')}
+        for fl in ['errors']:   # only the errors clause belongs to C04; skipping an empty table's header is not a C04 matter
+            if fl not in first_read:
+                continue
+            reach = {0} | f.reachable_from(0, avoid=first_read[fl] | err_blocks)
+            if 0 in first_read[fl]:
+                reach = set()
+            skipping = [e for e in f.exits if e in reach]
+            k3 = '%s|%s-on-every-path' % (f.name, fl)
+            if skipping:
+                rep.violation('R4b', k3, where='%s:%d' % (f.file, f.line), fn=f.name,
+                              detail='%s can return successfully without exporting RenderTable.%s (an early return skips it)%s' % (
+                                  kind, fl, ': a rejection message would be lost in this output mode' if fl == 'errors' else ''))
+            else:
+                rep.ok('R4b', k3, fn=f.name, detail='every non-error path to return reads RenderTable.%s' % fl, trivial=(fl != 'errors'))
         if 'errors' in read:
             k2 = '%s|errors-reach-output' % f.name
             if flows:
